@@ -25,8 +25,11 @@ CONSTANTS Procs,      \* process ids 1..P
           FixAttach,  \* TRUE: Attach unlocks afid on every path (D9 repaired)
           Literal,    \* TRUE: the property's literal client discipline (no fid is allocated by two requests at once);
                       \*       FALSE: additionally a fid being allocated is not named by any other in-flight request
-          FixDel      \* TRUE: clunk/remove look up and lock the fid like every other operation and unbind it
+          FixDel,     \* TRUE: clunk/remove look up and lock the fid like every other operation and unbind it
                       \*       under the lock; FALSE (pinned commit): LoadAndDelete first, Lock afterwards (D16)
+          CreateNils  \* TRUE (the code): when Create has made a directory whose opening fails, the fid's ref gets
+                      \*       Ent = nil before it is unlocked, so a request already queued on the lock sees
+                      \*       "unknown fid"; FALSE: the line is missing (why-it-matters configuration)
 
 VARIABLES refs,   \* fid -> ref id (0: absent)
           ref,    \* ref id -> [lk: owner process or 0, ent: entry id or 0, file: BOOLEAN]
@@ -34,8 +37,10 @@ VARIABLES refs,   \* fid -> ref id (0: absent)
           pr,     \* process -> [op, pc, r, r2, res]
           inFS,   \* entry id -> set of processes inside a FileSys call on it
           hist,   \* invocation / return events (for linearizability)
-          overlap \* ghost: two processes were inside FileSys calls on one entry
-vars == <<refs, ref, nref, nent, pr, inFS, hist, overlap>>
+          overlap,\* ghost: two processes were inside FileSys calls on one entry
+          dead,   \* ghost: entries released (clunk) or consumed (successful create)
+          uar     \* ghost: a FileSys call was made on a dead entry
+vars == <<refs, ref, nref, nent, pr, inFS, hist, overlap, dead, uar>>
 
 MaxRef == Cardinality(Fids) + Cardinality(Procs) + 1
 MaxEnt == Cardinality(Fids) + Cardinality(Procs) + 1
@@ -53,12 +58,12 @@ Assignments == {a \in [Procs -> OpSet] :
                                                          ELSE Alloc(a[p]) \cap Uses(a[q]) = {}}
 
 Init ==
-  /\ \E a \in Assignments : pr = [p \in Procs |-> [op |-> a[p], pc |-> "start", r |-> 0, r2 |-> 0, res |-> "?"]]
+  /\ \E a \in Assignments : pr = [p \in Procs |-> [op |-> a[p], pc |-> "start", r |-> 0, r2 |-> 0, e2 |-> 0, res |-> "?"]]
   /\ refs = [f \in Fids |-> IF f \in InitBound THEN 1 + Cardinality({g \in InitBound : g < f}) ELSE 0]
   /\ ref = [i \in 1..MaxRef |-> IF i <= Cardinality(InitBound) THEN [lk |-> 0, ent |-> i, file |-> FALSE] ELSE NoRef]
   /\ nref = Cardinality(InitBound) /\ nent = Cardinality(InitBound)
   /\ inFS = [e \in 1..MaxEnt |-> {}]
-  /\ hist = <<>> /\ overlap = FALSE
+  /\ hist = <<>> /\ overlap = FALSE /\ dead = {} /\ uar = FALSE
 
 Set(p, pc) == pr' = [pr EXCEPT ![p].pc = pc]
 Done(p, res) == /\ pr' = [pr EXCEPT ![p].pc = "done", ![p].res = res]
@@ -69,20 +74,20 @@ Start(p) ==
   /\ pr[p].pc = "start"
   /\ hist' = Append(hist, [e |-> "inv", p |-> p, res |-> ""])
   /\ LET o == pr[p].op IN
-     Set(p, CASE o.k \in {"stat", "clone", "walkfail"} -> "lookup"
+     Set(p, CASE o.k \in {"stat", "clone", "walkfail", "createdir", "createdirfail", "createfail"} -> "lookup"
               [] o.k \in {"clunk"} -> IF FixDel THEN "lookup" ELSE "del"
               [] o.k = "attachaf" -> "aflookup"
               [] OTHER -> "newref")
-  /\ UNCHANGED <<refs, ref, nref, nent, inFS, overlap>>
+  /\ UNCHANGED <<refs, ref, nref, nent, inFS, overlap, dead, uar>>
 
 \* getRef step 1: table lookup
 Lookup(p) ==
   /\ pr[p].pc \in {"lookup", "aflookup"}
   /\ LET f == IF pr[p].pc = "aflookup" THEN pr[p].op.nf ELSE pr[p].op.f
          r == refs[f] IN
-     IF r = 0 THEN Done(p, "unknownfid") /\ UNCHANGED <<refs, ref, nref, nent, inFS, overlap>>
+     IF r = 0 THEN Done(p, "unknownfid") /\ UNCHANGED <<refs, ref, nref, nent, inFS, overlap, dead, uar>>
      ELSE /\ pr' = [pr EXCEPT ![p].r = r, ![p].pc = IF pr[p].pc = "aflookup" THEN "aflock" ELSE "lock"]
-          /\ UNCHANGED <<refs, ref, nref, nent, inFS, hist, overlap>>
+          /\ UNCHANGED <<refs, ref, nref, nent, inFS, hist, overlap, dead, uar>>
 
 \* getRef step 2+3: Lock (blocks while held), then the Ent re-check
 Lock(p) ==
@@ -91,12 +96,12 @@ Lock(p) ==
      /\ ref[r].lk = 0
      /\ IF ref[r].ent = 0
           THEN \* deleted (or still reserved) -> unlock, unknown fid
-               /\ Done(p, "unknownfid") /\ UNCHANGED <<refs, ref, nref, nent, inFS, overlap>>
+               /\ Done(p, "unknownfid") /\ UNCHANGED <<refs, ref, nref, nent, inFS, overlap, dead, uar>>
           ELSE /\ ref' = [ref EXCEPT ![r].lk = p]
                /\ Set(p, CASE pr[p].pc = "aflock" -> "afcheck"
-                           [] pr[p].op.k \in {"stat", "clunk"} -> "fsenter"
+                           [] pr[p].op.k \in {"stat", "clunk", "createdir", "createdirfail", "createfail"} -> "fsenter"
                            [] OTHER -> "newref")
-               /\ UNCHANGED <<refs, nref, nent, inFS, hist, overlap>>
+               /\ UNCHANGED <<refs, nref, nent, inFS, hist, overlap, dead, uar>>
 
 \* Attach with an afid: the fid named as afid is an ordinary fid without an auth file -> refused.
 \* At the pinned commit this path returned without unlocking (FixAttach = FALSE).
@@ -104,7 +109,7 @@ AfCheck(p) ==
   /\ pr[p].pc = "afcheck"
   /\ ref' = IF FixAttach THEN [ref EXCEPT ![pr[p].r].lk = 0] ELSE ref
   /\ Done(p, "unknownfid")
-  /\ UNCHANGED <<refs, nref, nent, inFS, overlap>>
+  /\ UNCHANGED <<refs, nref, nent, inFS, overlap, dead, uar>>
 
 \* newRef: LoadOrStore of a locked placeholder
 NewRef(p) ==
@@ -113,43 +118,45 @@ NewRef(p) ==
          target == IF o.k \in {"clone", "walkfail"} THEN o.nf ELSE o.f IN
      IF refs[target] # 0
        THEN /\ ref' = IF pr[p].r # 0 THEN [ref EXCEPT ![pr[p].r].lk = 0] ELSE ref   \* deferred unlock of the source
-            /\ Done(p, "dupfid") /\ UNCHANGED <<refs, nref, nent, inFS, overlap>>
+            /\ Done(p, "dupfid") /\ UNCHANGED <<refs, nref, nent, inFS, overlap, dead, uar>>
        ELSE LET n == nref + 1 IN
             /\ n <= MaxRef
             /\ nref' = n
             /\ refs' = [refs EXCEPT ![target] = n]
             /\ ref' = [ref EXCEPT ![n] = [lk |-> p, ent |-> 0, file |-> FALSE]]
             /\ pr' = [pr EXCEPT ![p].r2 = n, ![p].pc = "fsenter"]
-            /\ UNCHANGED <<nent, inFS, hist, overlap>>
+            /\ UNCHANGED <<nent, inFS, hist, overlap, dead, uar>>
 
 \* delRef: LoadAndDelete, then Lock, then act
 Del(p) ==
   /\ pr[p].pc = "del"
   /\ LET f == pr[p].op.f
          r == refs[f] IN
-     IF r = 0 THEN Done(p, "unknownfid") /\ UNCHANGED <<refs, ref, nref, nent, inFS, overlap>>
+     IF r = 0 THEN Done(p, "unknownfid") /\ UNCHANGED <<refs, ref, nref, nent, inFS, overlap, dead, uar>>
      ELSE /\ refs' = [refs EXCEPT ![f] = 0]
           /\ pr' = [pr EXCEPT ![p].r = r, ![p].pc = "dellock"]
-          /\ UNCHANGED <<ref, nref, nent, inFS, hist, overlap>>
+          /\ UNCHANGED <<ref, nref, nent, inFS, hist, overlap, dead, uar>>
 DelLock(p) ==
   /\ pr[p].pc = "dellock"
   /\ LET r == pr[p].r IN
      /\ ref[r].lk = 0
-     /\ IF ref[r].ent = 0 THEN Done(p, "") /\ UNCHANGED <<refs, ref, nref, nent, inFS, overlap>>
+     /\ IF ref[r].ent = 0 THEN Done(p, "") /\ UNCHANGED <<refs, ref, nref, nent, inFS, overlap, dead, uar>>
         ELSE /\ ref' = [ref EXCEPT ![r].lk = p]
              /\ Set(p, "fsenter")
-             /\ UNCHANGED <<refs, nref, nent, inFS, hist, overlap>>
+             /\ UNCHANGED <<refs, nref, nent, inFS, hist, overlap, dead, uar>>
 
 \* the entry a FileSys call of p works on (0: the FileSys itself, as in attach)
-EntOf(p) == IF pr[p].op.k \in {"attach", "attachfail"} THEN 0 ELSE ref[pr[p].r].ent
+EntOf(p) == IF pr[p].op.k \in {"attach", "attachfail"} THEN 0
+            ELSE IF pr[p].e2 # 0 THEN pr[p].e2 ELSE ref[pr[p].r].ent
 
 FSEnter(p) ==
   /\ pr[p].pc = "fsenter"
   /\ LET e == EntOf(p) IN
      /\ inFS' = IF e = 0 THEN inFS ELSE [inFS EXCEPT ![e] = @ \cup {p}]
      /\ overlap' = (overlap \/ (e # 0 /\ inFS[e] # {}))
+     /\ uar' = (uar \/ e \in dead)
   /\ Set(p, "fsexit")
-  /\ UNCHANGED <<refs, ref, nref, nent, hist>>
+  /\ UNCHANGED <<refs, ref, nref, nent, hist, dead>>
 
 FSExit(p) ==
   /\ pr[p].pc = "fsexit"
@@ -159,30 +166,68 @@ FSExit(p) ==
          r2 == pr[p].r2 IN
      /\ inFS' = IF e = 0 THEN inFS ELSE [inFS EXCEPT ![e] = @ \ {p}]
      /\ CASE o.k = "stat" ->
-               /\ ref' = [ref EXCEPT ![r].lk = 0] /\ Done(p, "") /\ UNCHANGED <<refs, nent>>
+               /\ ref' = [ref EXCEPT ![r].lk = 0] /\ Done(p, "") /\ UNCHANGED <<refs, nent, dead>>
           [] o.k = "clunk" ->
                /\ ref' = [ref EXCEPT ![r] = [lk |-> 0, ent |-> 0, file |-> FALSE]] /\ Done(p, "")
                /\ refs' = IF FixDel /\ refs[o.f] = r THEN [refs EXCEPT ![o.f] = 0] ELSE refs
+               /\ dead' = dead \cup {e}
                /\ UNCHANGED nent
+          [] o.k = "createfail" ->
+               /\ ref' = [ref EXCEPT ![r].lk = 0] /\ Done(p, "fs") /\ UNCHANGED <<refs, nent, dead>>
+          [] o.k \in {"createdir", "createdirfail"} /\ pr[p].e2 = 0 ->
+               \* Dirent.Create succeeded: the directory entry is consumed, a new entry exists; the
+               \* session now opens the new directory itself (second FileSys call, on the new entry)
+               /\ nent' = nent + 1
+               /\ dead' = dead \cup {e}
+               /\ pr' = [pr EXCEPT ![p].e2 = nent + 1, ![p].pc = "fsenter"]
+               /\ UNCHANGED <<refs, ref, hist>>
+          [] o.k = "createdir" /\ pr[p].e2 # 0 ->
+               /\ ref' = [ref EXCEPT ![r] = [lk |-> 0, ent |-> pr[p].e2, file |-> TRUE]]
+               /\ Done(p, "") /\ UNCHANGED <<refs, nent, dead>>
+          [] o.k = "createdirfail" /\ pr[p].e2 # 0 /\ pr[p].pc = "fsexit" ->
+               \* OpenDir failed: unbind the fid; the new entry is clunked next
+               /\ refs' = IF refs[o.f] = r THEN [refs EXCEPT ![o.f] = 0] ELSE refs
+               /\ pr' = [pr EXCEPT ![p].pc = "cdfclunk"]
+               /\ UNCHANGED <<ref, nent, hist, dead>>
           [] o.k = "clone" ->       \* bind the reserved fid, unlock both
                /\ nent' = nent + 1
                /\ ref' = [ref EXCEPT ![r].lk = 0, ![r2] = [lk |-> 0, ent |-> nent + 1, file |-> FALSE]]
-               /\ Done(p, "") /\ UNCHANGED refs
+               /\ Done(p, "") /\ UNCHANGED <<refs, dead>>
           [] o.k = "walkfail" ->    \* roll back the reservation
                /\ refs' = [refs EXCEPT ![o.nf] = 0]
                /\ ref' = [ref EXCEPT ![r].lk = 0, ![r2].lk = 0]
-               /\ Done(p, "fs") /\ UNCHANGED nent
+               /\ Done(p, "fs") /\ UNCHANGED <<nent, dead>>
           [] o.k = "attach" ->
                /\ nent' = nent + 1
                /\ ref' = [ref EXCEPT ![r2] = [lk |-> 0, ent |-> nent + 1, file |-> FALSE]]
-               /\ Done(p, "") /\ UNCHANGED refs
+               /\ Done(p, "") /\ UNCHANGED <<refs, dead>>
           [] o.k = "attachfail" ->
                /\ refs' = [refs EXCEPT ![o.f] = 0]
                /\ ref' = [ref EXCEPT ![r2].lk = 0]
-               /\ Done(p, "fs") /\ UNCHANGED nent
-  /\ UNCHANGED <<nref, overlap>>
+               /\ Done(p, "fs") /\ UNCHANGED <<nent, dead>>
+  /\ UNCHANGED <<nref, overlap, uar>>
 
-Step(p) == Start(p) \/ Lookup(p) \/ Lock(p) \/ AfCheck(p) \/ NewRef(p) \/ Del(p) \/ DelLock(p) \/ FSEnter(p) \/ FSExit(p)
+\* Create's clean-up after a failed OpenDir of the new directory: clunk the new entry (enter, exit),
+\* set the fid's Ent to nil (CreateNils), unlock, report the error
+CdfClunkEnter(p) ==
+  /\ pr[p].pc = "cdfclunk"
+  /\ LET e == pr[p].e2 IN
+     /\ inFS' = [inFS EXCEPT ![e] = @ \cup {p}]
+     /\ overlap' = (overlap \/ inFS[e] # {})
+     /\ uar' = (uar \/ e \in dead)
+  /\ Set(p, "cdfexit")
+  /\ UNCHANGED <<refs, ref, nref, nent, hist, dead>>
+CdfClunkExit(p) ==
+  /\ pr[p].pc = "cdfexit"
+  /\ LET e == pr[p].e2
+         r == pr[p].r IN
+     /\ inFS' = [inFS EXCEPT ![e] = @ \ {p}]
+     /\ dead' = dead \cup {e}
+     /\ ref' = [ref EXCEPT ![r] = [lk |-> 0, ent |-> IF CreateNils THEN 0 ELSE @.ent, file |-> FALSE]]
+  /\ Done(p, "fs")
+  /\ UNCHANGED <<refs, nref, nent, overlap, uar>>
+
+Step(p) == Start(p) \/ Lookup(p) \/ Lock(p) \/ AfCheck(p) \/ NewRef(p) \/ Del(p) \/ DelLock(p) \/ FSEnter(p) \/ FSExit(p) \/ CdfClunkEnter(p) \/ CdfClunkExit(p)
 AllDone == \A p \in Procs : pr[p].pc = "done"
 Next == (\E p \in Procs : Step(p)) \/ (AllDone /\ UNCHANGED vars)
 Spec == Init /\ [][Next]_vars /\ WF_vars(\E p \in Procs : Step(p))
@@ -190,6 +235,8 @@ Spec == Init /\ [][Next]_vars /\ WF_vars(\E p \in Procs : Step(p))
 \* ------------------------------------------------------------- properties
 \* the file system never sees two overlapping calls on one entry
 MutualExclusion == ~overlap /\ \A e \in 1..MaxEnt : Cardinality(inFS[e]) <= 1
+\* the file system never sees a call on an entry the session has released or that a create consumed
+NoUseAfterRelease == ~uar
 \* deadlock freedom: some process can move unless all are done (TLC deadlock check is off because of the final stutter)
 NoDeadlock == AllDone \/ ENABLED (\E p \in Procs : Step(p))
 \* after the operations returned no ref reachable from the table is locked
@@ -210,6 +257,9 @@ SeqApply(b, o) ==
          IF o.f \in b THEN [b |-> b, res |-> "dupfid"]
          ELSE IF o.k = "attach" THEN [b |-> b \cup {o.f}, res |-> ""] ELSE [b |-> b, res |-> "fs"]
     [] o.k = "attachaf" -> [b |-> b, res |-> "unknownfid"]
+    [] o.k = "createdir" -> IF o.f \in b THEN [b |-> b, res |-> ""] ELSE [b |-> b, res |-> "unknownfid"]
+    [] o.k = "createfail" -> IF o.f \in b THEN [b |-> b, res |-> "fs"] ELSE [b |-> b, res |-> "unknownfid"]
+    [] o.k = "createdirfail" -> IF o.f \in b THEN [b |-> b \ {o.f}, res |-> "fs"] ELSE [b |-> b, res |-> "unknownfid"]
 
 Pos(e, p) == CHOOSE i \in 1..Len(hist) : hist[i].e = e /\ hist[i].p = p
 Before(p, q) == Pos("ret", p) < Pos("inv", q)      \* real-time order
@@ -225,5 +275,9 @@ Linearizable ==
 \* ---- operation sets for the configs
 OpsSmall == { Op("stat", 0, 0, ""), Op("clunk", 0, 0, ""), Op("clone", 0, 2, ""), Op("walkfail", 0, 2, ""),
               Op("attach", 2, 0, ""), Op("attachfail", 3, 0, ""), Op("attachaf", 3, 0, ""), Op("stat", 2, 0, ""),
-              Op("clunk", 1, 0, ""), Op("clone", 1, 3, ""), Op("clone", 0, 1, ""), Op("clunk", 2, 0, "") }
+              Op("clunk", 1, 0, ""), Op("clone", 1, 3, ""), Op("clone", 0, 1, ""), Op("clunk", 2, 0, ""),
+              Op("createdir", 0, 0, ""), Op("createdirfail", 0, 0, ""), Op("createfail", 0, 0, ""), Op("createdirfail", 1, 0, "") }
+\* the create clean-up path against every kind of request queued on the same fid
+OpsCreate == { Op("createdirfail", 0, 0, ""), Op("createdir", 0, 0, ""), Op("stat", 0, 0, ""), Op("clunk", 0, 0, ""),
+               Op("clone", 0, 2, ""), Op("attach", 0, 0, ""), Op("createfail", 0, 0, "") }
 =============================================================================
